@@ -10,6 +10,7 @@
 
 #include "gen.hpp"
 #include "place_detailed/incr_net_model.hpp"
+#include "place_global/density_grid.hpp"
 #include "project.hpp"
 #include "trace.hpp"
 
@@ -144,6 +145,29 @@ static void scenario(const std::string &scen, int run, Circuit base, const Coloq
       e.set("run", run).set("idx", idx++);
       e.set("row", Value::object().set("x0", row.minX).set("x1", row.maxX).set("y0", row.minY).set("y1", row.maxY).set("o", vp::orientName(row.orientation)));
       e.set("obs", obs).set("segs", segs).set("total", (long long)all.size()).set("nrows", (long long)base.rows().size());
+      vt::emit(e);
+    }
+  } else if (scen == "grid") {
+    // C16: the capacity grid built from a circuit (free rows after the side margin), at the finest and coarsest views
+    vg::Rng r((uint64_t)run * 313 + 11);
+    int m2 = (int)r.in(0, 4);                       // side margin in half row heights: exact in float
+    int sf2 = (int)r.in(2, 12);                     // bin size factor in halves
+    HierarchicalDensityPlacement h = HierarchicalDensityPlacement::fromIspdCircuit(base, 0.5f * sf2, 0.5f * m2);
+    int minH = std::numeric_limits<int>::max();
+    for (int i = 0; i < base.nbCells(); ++i)
+      if (base.cellHeight_[i] > 0) minH = std::min(minH, base.cellHeight_[i]);
+    for (int view = 0; view < 2; ++view) {
+      if (view == 0) h.refineFully();
+      else h.coarsenFully();
+      Value e = vt::ev("Grid");
+      e.set("run", run).set("circ", vp::circuitToJson(base)).set("m2", m2).set("sf2", sf2).set("minH", minH).set("view", view);
+      Value limX = Value::array(), limY = Value::array(), caps = Value::array();
+      for (int i = 0; i <= h.nbBinsX(); ++i) limX.push(h.binLimitX(i));
+      for (int j = 0; j <= h.nbBinsY(); ++j) limY.push(h.binLimitY(j));
+      for (int i = 0; i < h.nbBinsX(); ++i)
+        for (int j = 0; j < h.nbBinsY(); ++j)
+          caps.push(Value::object().set("i", i + 1).set("j", j + 1).set("cap", h.binCapacity(i, j)));
+      e.set("limX", limX).set("limY", limY).set("bins", caps).set("totalCap", h.totalCapacity());
       vt::emit(e);
     }
   } else if (scen == "glob") {
